@@ -17,6 +17,9 @@ package main
 //   HE,k,n,t,v,e,c,run  it returns (v,e); c=1: it returned because ctx.Done() fired; run = running handlers now
 //   OE,k,t,e         error callback          G,k,t,v,e       first Get2 returned
 //   GG,k,t,v,e       a second Get2 at the end of the scenario
+//   G1,k,t,v         Get1 (called from its own goroutine right after Send returned) returned v
+//   ER,k,t,e         Err() called right after the first Get2 returned
+//   HANG1,k          Get1 had not returned at the horizon
 //   HANG,k           Get2 had not returned at the horizon
 //   PC,t,k,n         parent context about to be cancelled (logged BEFORE cancel() is called, so every effect
 //                    of the cancellation is logged after it); k = -1: by the script, else by the n-th handler invocation of task k
@@ -92,17 +95,67 @@ var handlerErrs = func() []error {
 	return l
 }()
 
+// error codes >= 101: errors with an identity the pool itself uses, returned by a handler as its OWN ordinary error
+//   101  the discard error a handler obtained from Get2 of a Send that another, busy pool rejected
+//   102  context.DeadlineExceeded      103  context.Canceled      104  fmt.Errorf("...%w", <the discard error>)
 func herr(k int) error {
 	if k <= 0 {
 		return nil
 	}
+	switch k {
+	case 101:
+		return discardFromBusyPool()
+	case 102:
+		return context.DeadlineExceeded
+	case 103:
+		return context.Canceled
+	case 104:
+		return fmt.Errorf("wrapped: %w", discardFromBusyPool())
+	}
 	return handlerErrs[k%len(handlerErrs)]
+}
+
+// busyPool: a process-wide pool of size 1 whose only inner worker runs a handler that never returns and whose task
+// queue holds one more task: every further Send with discardOnBusy is rejected.
+var busyPool ants.Pool
+
+// ensureBusyPool must be called outside a scenario's measured span (it lets 1 ns of virtual time pass).
+func ensureBusyPool() {
+	if busyPool != nil {
+		return
+	}
+	busyPool = ants.NewPool()
+	forever := make(chan struct{})
+	block := func(ctx context.Context) (any, error) { <-forever; return nil, nil }
+	busyPool.Send(block, ants.WithDiscardOnBusy(false))
+	time.Sleep(time.Nanosecond) // the dispatcher picks it up, the inner worker enters the handler
+	busyPool.Send(block, ants.WithDiscardOnBusy(false))
+}
+
+func discardFromBusyPool() error {
+	t := busyPool.Send(func(ctx context.Context) (any, error) { return nil, nil })
+	_, e := t.Get2()
+	if !ants.IsDiscardError(e) {
+		panic("harness: the busy pool accepted a task")
+	}
+	return e
+}
+
+func needsBusyPool(behs []behaviour) bool {
+	for _, b := range behs {
+		if b.err == 101 || b.err == 104 {
+			return true
+		}
+	}
+	return false
 }
 
 func showErr(e error) string {
 	switch {
 	case e == nil:
 		return "nil"
+	case ants.IsDiscardError(e) && errors.Unwrap(e) != nil:
+		return "E104" // a handler's wrapped discard error (code 104)
 	case ants.IsDiscardError(e):
 		return "DISC"
 	case e == context.DeadlineExceeded:
@@ -145,6 +198,9 @@ func runAnts(toks []string) string {
 			}
 		}
 		specs = append(specs, sp)
+		if needsBusyPool(sp.behs) {
+			ensureBusyPool()
+		}
 	}
 	var mu sync.Mutex
 	var sb strings.Builder
@@ -199,6 +255,7 @@ func runAnts(toks []string) string {
 	var wg sync.WaitGroup
 	tasks := make([]ants.Task, len(specs))
 	returned := make([]bool, len(specs))
+	returned1 := make([]bool, len(specs))
 	for k := range specs {
 		k := k
 		sp := specs[k]
@@ -275,11 +332,24 @@ func runAnts(toks []string) string {
 			logf(func() string { return fmt.Sprintf("S,%d,%d", k, now()) })
 			t := pool.Send(handler, opts...)
 			logf(func() string { tasks[k] = t; return fmt.Sprintf("SR,%d,%d", k, now()) })
+			// the sibling entry points of the Task interface: Get1() from its own goroutine, started before the
+			// task completes, and Err() right after Get2() returned
+			wg.Add(1)
+			go func() {
+				defer wg.Done()
+				v1 := t.Get1()
+				logf(func() string {
+					returned1[k] = true
+					return fmt.Sprintf("G1,%d,%d,%s", k, now(), showVal(v1))
+				})
+			}()
 			v, e := t.Get2()
 			logf(func() string {
 				returned[k] = true
 				return fmt.Sprintf("G,%d,%d,%s,%s", k, now(), showVal(v), showErr(e))
 			})
+			e2 := t.Err()
+			logf(func() string { return fmt.Sprintf("ER,%d,%d,%s", k, now(), showErr(e2)) })
 		}(pool)
 	}
 	if pcAt >= 0 {
@@ -304,8 +374,11 @@ func runAnts(toks []string) string {
 	for k := range specs {
 		k := k
 		mu.Lock()
-		ok, t := returned[k], tasks[k]
+		ok, ok1, t := returned[k], returned1[k], tasks[k]
 		mu.Unlock()
+		if t != nil && !ok1 {
+			logf(func() string { return fmt.Sprintf("HANG1,%d", k) })
+		}
 		if !ok {
 			logf(func() string { return fmt.Sprintf("HANG,%d", k) })
 			continue
